@@ -67,33 +67,34 @@ Definition lost (i' : ipam) (x : N) (K : str) : Prop := ∀ e', i_alloc i' !! x 
 (** what may have happened to an IP of pod [q] that is no longer under the pod's key, by the verdict: it is free
     and the verdict was [MustFree], or it is parked (uid cleared) under the application / pool prefix and the
     verdict was [KeepForApp] *)
-Definition verdict_allows (w : world) (q : pod) (pol : N) (x : N) (w' : world) : Prop :=
-  match i_alloc (w_ipam w') !! x with
+Definition verdict_allows (w : world) (q : pod) (pol : N) (x : N) (i' : ipam) : Prop :=
+  match i_alloc i' !! x with
   | None => policy_verdict w (keyobj_of q) pol = MustFree
   | Some e' => e_key e' = Keys.pool_prefix (keyobj_of q) ∧ e_uid e' = [] ∧
                policy_verdict w (keyobj_of q) pol = KeepForApp
   end.
 
-(** the licences for taking the IP [x] away from the key of pod [q] in step [o] from world [w] *)
-Inductive licence (w : world) (o : pop) (x : N) (q : pod) (w' : world) : Prop :=
+(** the licences for taking the IP [x] away from the key of pod [q] in step [o] from world [w]; [i'] = the
+    allocation state after the step *)
+Inductive licence (w : world) (o : pop) (x : N) (q : pod) (i' : ipam) : Prop :=
 | lic_api k ocl fl e :
     o = PApiRelease k x ocl fl → Keys.ko_key k = pod_key q → i_alloc (w_ipam w) !! x = Some e →
-    pod_running w (pd_ns q) (pd_name q) (e_uid e) = false → i_alloc (w_ipam w') !! x = None →
-    licence w o x q w'
+    pod_running w (pd_ns q) (pd_name q) (e_uid e) = false → i_alloc i' !! x = None →
+    licence w o x q i'
 | lic_reload conf lf ps :
-    o = PIpam (OConfigure conf lf []) → decode_pools conf = Some ps → configured ps x = false → licence w o x q w'
+    o = PIpam (OConfigure conf lf []) → decode_pools conf = Some ps → configured ps x = false → licence w o x q i'
 | lic_restart conf ps :
-    o = PRestart conf → decode_pools conf = Some ps → configured ps x = false → licence w o x q w'
+    o = PRestart conf → decode_pools conf = Some ps → configured ps x = false → licence w o x q i'
 | lic_event n orc oun fl qe :
     o = PEvent n orc oun fl → w_queue w !! n = Some qe → pod_key qe = pod_key q →
     (∀ p, w_pods w !! pk qe = Some p → pd_uid p = pd_uid qe → finished p = true) →
-    (policy_of qe ≤ 2 → verdict_allows w q (policy_of qe) x w') →
-    licence w o x q w'
+    (policy_of qe ≤ 2 → verdict_allows w q (policy_of qe) x i') →
+    licence w o x q i'
 | lic_resync x0 orc ocl fl e0 :
     o = PResync x0 orc ocl fl → i_alloc (w_ipam w) !! x0 = Some e0 → e_key e0 = pod_key q →
     pod_running w (pd_ns q) (pd_name q) (e_uid e0) = false →
-    (e_policy e0 ≤ 2 → verdict_allows w q (e_policy e0) x w') →
-    licence w o x q w'.
+    (e_policy e0 ≤ 2 → verdict_allows w q (e_policy e0) x i') →
+    licence w o x q i'.
 
 (** [e'] is [e] parked under key [newk]: node and uid cleared, stored policy kept *)
 Definition cleared (e e' : entry) (newk : str) : Prop :=
@@ -807,4 +808,283 @@ Lemma resync_pass_exact_l w items w' :
 Proof.
   intros Hi Hcov Hpass x e q He. destruct (resync_pass_done _ _ _ Hpass Hi) as (_ & _ & Hdom & Hdone).
   apply (Hdone x); [|done]. left. apply Hcov, Hdom. by eexists.
+Qed.
+
+(** * 6. Safety: an IP leaves a pod key only with a licence *)
+Definition keeps (i' : ipam) (x : N) (K : str) : Prop := ∃ e', i_alloc i' !! x = Some e' ∧ e_key e' = K.
+
+Lemma lost_keeps i' x K : lost i' x K → keeps i' x K → False.
+Proof. intros Hl (e' & He' & Hk). by apply (Hl e' He'). Qed.
+
+Lemma verdict_allows_ext w w1 q pol x i' :
+  w_sts w1 = w_sts w → w_dps w1 = w_dps w → same_keys (w_ipam w) (w_ipam w1) →
+  verdict_allows w1 q pol x i' → verdict_allows w q pol x i'.
+Proof. intros Hs Hd Hk. unfold verdict_allows. by rewrite (verdict_ext w w1 _ _ Hs Hd Hk). Qed.
+
+(** the policy decision *)
+Lemma unbind_any_licence w1 q pol o fl x e :
+  wf_pod q → pol ≤ 2 → i_alloc (w_ipam w1) !! x = Some e → e_key e = pod_key q →
+  lost (w_ipam (unbind_any w1 (keyobj_of q) pol o fl).1) x (pod_key q) →
+  verdict_allows w1 q pol x (w_ipam (unbind_any w1 (keyobj_of q) pol o fl).1).
+Proof.
+  intros Wq Hpol He Hk Hlost.
+  pose proof (unbind_any_cases w1 (keyobj_of q) pol o fl Hpol) as Hv.
+  change (Keys.ko_key (keyobj_of q)) with (pod_key q) in Hv. change (Keys.ko_pod (keyobj_of q)) with (pd_name q) in Hv.
+  specialize (Hv (λ E, pool_prefix_not_pod_key (keyobj_of q) q Wq (eq_sym E)) (pod_index_pod_key q Wq)).
+  unfold verdict_allows.
+  destruct (unbind_any w1 (keyobj_of q) pol o fl) as [w2 r2] eqn:Eu. cbn [fst] in *.
+  destruct (policy_verdict w1 (keyobj_of q) pol).
+  - symmetry in Hv. destruct (release_key_frame _ _ _ _ _ _ Hv) as [_ Hy].
+    destruct (Hy x) as [E|(e0 & _ & _ & ->)]; [|done]. exfalso. apply (lost_keeps _ _ _ Hlost). exists e. by rewrite E.
+  - exfalso. apply (lost_keeps _ _ _ Hlost). destruct Hv as [Hv|(Hv & _)].
+    + symmetry in Hv. destruct (reserve_key_spec _ _ _ _ _ _ _ Hv) as [_ Hy].
+      destruct (Hy x) as [E|(e0 & e' & _ & _ & He' & Hc)]; [exists e; by rewrite E|]. exists e'. by destruct Hc.
+    + injection Hv as <- _. by exists e.
+  - symmetry in Hv. destruct (reserve_key_spec _ _ _ _ _ _ _ Hv) as [_ Hy].
+    destruct (Hy x) as [E|(e0 & e' & _ & _ & He' & Hc)].
+    + exfalso. apply (lost_keeps _ _ _ Hlost). exists e. by rewrite E.
+    + rewrite He'. by destruct Hc as (? & ? & _).
+Qed.
+
+Lemma rchg_other K P i i' x e : rchg K P i i' → i_alloc i !! x = Some e → e_key e ≠ K → i_alloc i' !! x = Some e.
+Proof. intros H He Hk. destruct (H x) as [->|(e0 & He0 & Hk0 & _)]; [done|]. congruence. Qed.
+
+(** a queued pod event *)
+Lemma event_licence w n o oun fl x e q :
+  WInv w → i_alloc (w_ipam w) !! x = Some e → wf_pod q → e_key e = pod_key q →
+  lost (w_ipam (pstep w (PEvent n o oun fl)).1) x (pod_key q) →
+  licence w (PEvent n o oun fl) x q (w_ipam (pstep w (PEvent n o oun fl)).1).
+Proof.
+  intros Hw He Wq Hk. cbn [pstep]. destruct (w_queue w !! n) as [qe|] eqn:En.
+  2:{ intros Hl. exfalso. apply (lost_keeps _ _ _ Hl). by exists e. }
+  pose proof (wi_queue w Hw) as HQ. rewrite Forall_forall in HQ.
+  destruct (HQ qe) as [Wqe Hqe]; [by eapply elem_of_list_lookup_2|].
+  assert (w_ipam (match unbind_section true w qe o oun fl with
+                  | (w', SOk) => (set_queue w' (take n (w_queue w') ++ drop (S n) (w_queue w')), ROk)
+                  | (w', SErr) => (w', RErr) | (w', SStuck) => (w', RStuck) end).1 =
+          w_ipam (unbind_section true w qe o oun fl).1) as ->.
+  { by destruct (unbind_section true w qe o oun fl) as [w2 [| |]]. }
+  pose proof (wi_ipam w Hw) as Hi.
+  destruct (unbind_section_cases w qe o oun fl) as [[_ ->]|(_ & w1 & Henv & Hi1 & [(r & _ & ->)| ->])]; cbn [fst].
+  { intros Hl. exfalso. apply (lost_keeps _ _ _ Hl). by exists e. }
+  { intros Hl. exfalso. apply (lost_keeps _ _ _ Hl). exists e. by rewrite Hi1. }
+  destruct (str_eqb_spec (pod_key qe) (pod_key q)) as [Ekk|Ekk].
+  - assert (keyobj_of qe = keyobj_of q) as Eko by (by rewrite <- (parse_pod_key qe Wqe), Ekk, (parse_pod_key q Wq)).
+    rewrite Eko. intros Hl. eapply lic_event; try done. intros Hpol.
+    destruct Henv as (_ & _ & _ & Hs & Hd & _).
+    apply (verdict_allows_ext w w1); [done|done|apply same_keys_eq; by rewrite Hi1|].
+    eapply unbind_any_licence; try done. by rewrite Hi1.
+  - intros Hl. exfalso. apply (lost_keeps _ _ _ Hl). exists e. split; [|done].
+    rewrite <- Hi1 in Hi, He. destruct (unbind_any_frame w1 (keyobj_of qe) (policy_of qe) o fl Hi) as (_ & _ & Hc).
+    eapply rchg_other; [exact Hc|done|]. change (Keys.ko_key (keyobj_of qe)) with (pod_key qe). congruence.
+Qed.
+
+(** one resync item *)
+Lemma resync_licence w x0 o ocl fl x e q :
+  WInv w → i_alloc (w_ipam w) !! x = Some e → wf_pod q → e_key e = pod_key q →
+  lost (w_ipam (pstep w (PResync x0 o ocl fl)).1) x (pod_key q) →
+  licence w (PResync x0 o ocl fl) x q (w_ipam (pstep w (PResync x0 o ocl fl)).1).
+Proof.
+  intros Hw He Wq Hk. cbn [pstep].
+  assert (w_ipam (match resync_section w x0 o ocl fl with
+                  | (w', SStuck) => (w', RStuck) | (w', _) => (w', ROk) end).1 =
+          w_ipam (resync_section w x0 o ocl fl).1) as ->.
+  { by destruct (resync_section w x0 o ocl fl) as [w2 [| |]]. }
+  pose proof (wi_ipam w Hw) as Hi.
+  assert (keeps (w_ipam w) x (pod_key q)) as Hkeep by (by exists e).
+  pose proof (resync_section_cases w x0 o ocl fl) as Hc.
+  destruct (i_alloc (w_ipam w) !! x0) as [e0|] eqn:He0.
+  2:{ rewrite Hc. intros Hl. by destruct (lost_keeps _ _ _ Hl). }
+  cbv zeta in Hc. destruct (resync_skip _ _) eqn:Hs.
+  { rewrite Hc. intros Hl. by destruct (lost_keeps _ _ _ Hl). }
+  destruct (pod_running _ _ _ _) eqn:Hr.
+  { rewrite Hc. intros Hl. by destruct (lost_keeps _ _ _ Hl). }
+  destruct Hc as [(w1 & r1 & Henv & Hi1 & -> & _)|(w1 & Hpre & ->)]; cbn [fst].
+  { intros Hl. exfalso. apply (lost_keeps _ _ _ Hl). by rewrite Hi1. }
+  destruct (pre_cleared_facts w w1 (e_key e0) Hi Hpre) as (Hi1 & Hsk & Hc1 & Hall). destruct Hpre as [Henv1 _].
+  destruct (str_eqb_spec (e_key e0) (pod_key q)) as [Ekk|Ekk].
+  - rewrite Ekk, (parse_pod_key q Wq) in *. intros Hl.
+    destruct (Hall x e He Hk) as (e1 & He1 & Hk1 & _).
+    eapply lic_resync; try done. intros Hpol.
+    destruct Henv1 as (_ & _ & _ & Hs1 & Hd1 & _).
+    apply (verdict_allows_ext w w1); [done|done|done|]. by eapply unbind_any_licence.
+  - intros Hl. exfalso. apply (lost_keeps _ _ _ Hl). exists e. split; [|done].
+    destruct (unbind_any_frame w1 (Keys.parse_key (e_key e0)) (e_policy e0) o fl Hi1) as (_ & _ & Hc2).
+    rewrite parse_key_key in Hc2.
+    eapply rchg_other; [exact Hc2| |congruence]. eapply rchg_other; [exact Hc1|done|congruence].
+Qed.
+
+(** an API release *)
+Lemma api_release_frame w k ip ocl fl :
+  i_alloc (w_ipam (api_release_section w k ip ocl fl).1) = i_alloc (w_ipam w) ∨
+  ∃ e0, by_ip (w_ipam w) ip = Some e0 ∧ e_key e0 = Keys.ko_key k ∧
+        pod_running w (Keys.ko_ns k) (Keys.ko_pod k) (e_uid e0) = false ∧
+        ∀ y, i_alloc (w_ipam (api_release_section w k ip ocl fl).1) !! y = i_alloc (w_ipam w) !! y ∨
+             (keeps (w_ipam w) y (Keys.ko_key k) ∧ keeps (w_ipam (api_release_section w k ip ocl fl).1) y (Keys.ko_key k)) ∨
+             (y = ip ∧ i_alloc (w_ipam (api_release_section w k ip ocl fl).1) !! y = None).
+Proof.
+  unfold api_release_section. destruct (by_ip (w_ipam w) ip) as [e0|] eqn:Hb.
+  2:{ left. by destruct (Keys.is_empty _). }
+  destruct (str_eqb_spec (e_key e0) (Keys.ko_key k)) as [Ek|Ek]; cbn [negb].
+  2:{ left. by destruct (Keys.is_empty _). }
+  destruct (pod_running _ _ _ _) eqn:Erun; [by left|].
+  right. exists e0. split_and!; try done.
+  match goal with |- ∀ y, i_alloc (w_ipam (match ?r with _ => _ end).1) !! y = _ ∨ _ => set (s1 := r) end.
+  assert (∀ y, i_alloc (w_ipam s1.1) !! y = i_alloc (w_ipam w) !! y ∨
+               (keeps (w_ipam w) y (Keys.ko_key k) ∧ keeps (w_ipam s1.1) y (Keys.ko_key k))) as Hs1.
+  { unfold s1. destruct (_ && _)%bool; [|by left].
+    destruct (bool_decide _); [by left|].
+    destruct (reserve_ip (w_ipam (cloud_unassign w ip (e_node e0))) (e_key e0) (e_key e0) free_entry_attr ocl None)
+      as [s' ra] eqn:Er. cbn [fst snd].
+    pose proof (reserve_ip_cleared _ _ _ _ _ _ _ Er) as Hy.
+    assert (∀ y, i_alloc s' !! y = i_alloc (w_ipam w) !! y ∨
+                 (keeps (w_ipam w) y (Keys.ko_key k) ∧ keeps s' y (Keys.ko_key k))) as Hy'.
+    { intros y. destruct (Hy y) as [?|(e & e' & He & Hk & He' & Hc)]; [by left|]. right. split.
+      - exists e. split; [done|congruence].
+      - exists e'. split; [done|]. destruct Hc as [-> _]. done. }
+    destruct ra; cbn [fst set_ipam w_ipam]; try done. intros y. by left. }
+  destruct s1 as [w1 [| |]]; cbn [fst] in *; try (intros y; destruct (Hs1 y); [by left|right; by left]).
+  destruct (release (w_ipam w1) (Keys.ko_key k) ip (bool_decide (f_store fl = Some 0%nat))) as [s2 r2] eqn:Er.
+  cbn [fst set_ipam w_ipam].
+  destruct (release_spec _ _ _ _ _ _ Er) as [(_ & e & He & Hk & Ha & _)|[_ ->]].
+  2:{ intros y. destruct (Hs1 y); [by left|right; by left]. }
+  intros y. destruct (decide (y = ip)) as [->|Hne].
+  - right; right. by rewrite Ha, lookup_delete.
+  - destruct (Hs1 y) as [E|(Hk0 & e' & He' & Hk')]; [left; by rewrite Ha, lookup_delete_ne|]. right; left.
+    split; [done|]. exists e'. rewrite Ha, lookup_delete_ne by done. done.
+Qed.
+
+Lemma api_release_licence w k ip ocl fl x e q :
+  WInv w → k = Keys.parse_key (Keys.ko_key k) → i_alloc (w_ipam w) !! x = Some e → wf_pod q → e_key e = pod_key q →
+  lost (w_ipam (pstep w (PApiRelease k ip ocl fl)).1) x (pod_key q) →
+  licence w (PApiRelease k ip ocl fl) x q (w_ipam (pstep w (PApiRelease k ip ocl fl)).1).
+Proof.
+  intros Hw Hkp He Wq Hk. cbn [pstep].
+  assert (w_ipam (match api_release_section w k ip ocl fl with
+                  | (w', SOk) => (w', ROk) | (w', SErr) => (w', RErr) | (w', SStuck) => (w', RStuck) end).1 =
+          w_ipam (api_release_section w k ip ocl fl).1) as ->.
+  { by destruct (api_release_section w k ip ocl fl) as [w2 [| |]]. }
+  intros Hl. destruct (api_release_frame w k ip ocl fl) as [E|(e0 & Hb & Hk0 & Hrun & Hy)].
+  { exfalso. apply (lost_keeps _ _ _ Hl). exists e. by rewrite E. }
+  destruct (Hy x) as [E|[((e1 & He1 & Hk1) & e' & He' & Hk')|[-> Hn]]].
+  - exfalso. apply (lost_keeps _ _ _ Hl). exists e. by rewrite E.
+  - exfalso. apply (lost_keeps _ _ _ Hl). exists e'. split; congruence.
+  - unfold by_ip in Hb. rewrite He in Hb. simplify_eq.
+    assert (k = keyobj_of q) as Ek by (by rewrite Hkp, <- Hk0, Hk, (parse_pod_key q Wq)).
+    eapply lic_api; try done; [congruence|]. by rewrite Ek in Hrun.
+Qed.
+
+(** ** the steps that never take an IP away from a pod key *)
+Lemma sync_ips_keeps p fl x e : ∀ ips idx w,
+  Inv2 (w_ipam w) → i_alloc (w_ipam w) !! x = Some e → i_alloc (w_ipam (sync_ips w p ips fl idx)) !! x = Some e.
+Proof.
+  induction ips as [|y rest IH]; intros idx w Hi He; [done|]. cbn [sync_ips].
+  destruct (by_ip (w_ipam w) y) as [e0|]; [|by apply IH]. destruct (Keys.is_empty (e_key e0)); [|by apply IH].
+  apply IH; cbn [set_ipam w_ipam]; [by apply inv2_alloc_specific|].
+  destruct (alloc_specific (w_ipam w) (pod_key p) y _ _) as [s' r] eqn:Ea. cbn [fst].
+  destruct (alloc_specific_spec _ _ _ _ _ _ _ Ea) as [(_ & Hy & -> & _)|[_ ->]]; [|done].
+  rewrite lookup_insert_ne; [done|]. intros ->. destruct Hi as [Hinv _]. rewrite (inv_disj _ Hinv _ Hy) in He. done.
+Qed.
+
+Lemma sync_pod_ip_keeps w p fl x e :
+  Inv2 (w_ipam w) → i_alloc (w_ipam w) !! x = Some e → i_alloc (w_ipam (sync_pod_ip w p fl)) !! x = Some e.
+Proof. intros Hi He. unfold sync_pod_ip. destruct (_ =? _); [by apply sync_ips_keeps|done]. Qed.
+
+Lemma env_step_keeps w ev x e :
+  Inv2 (w_ipam w) → i_alloc (w_ipam w) !! x = Some e → i_alloc (w_ipam (env_step w ev)) !! x = Some e.
+Proof.
+  intros Hi He. destruct ev as [p|key|key ph|key|key r|key r|name r|n]; cbn [env_step]; try done.
+  - by destruct (w_pods w !! key).
+  - unfold informer_sync. destruct (w_pods w !! key) as [p|], (w_lister w !! key) as [old|]; try done.
+    destruct (negb (str_eqb _ _)); [done|]. destruct (_ && _)%bool; [done|]. by apply sync_pod_ip_keeps.
+Qed.
+
+Lemma filter_keeps w p nodes o fl x e q :
+  Inv2 (w_ipam w) → i_alloc (w_ipam w) !! x = Some e → wf_pod q → e_key e = pod_key q →
+  i_alloc (w_ipam (filter_section w p nodes o fl).1) !! x = Some e.
+Proof.
+  intros Hi He Wq Hk. destruct (filter_section w p nodes o fl) as [w' r] eqn:E. cbn [fst].
+  apply filter_section_frame in E as [->|(sn & a & ch & fail & i' & _ & -> & [Hal|[ox Hal]])]; [done| |]; cbn [set_ipam w_ipam].
+  - destruct (alloc_with_key_spec _ _ _ _ _ _ _ _ _ Hal) as [(_ & x1 & e1 & He1 & Hk1 & _ & -> & _)|[? _]]; [|done].
+    rewrite lookup_insert_ne; [done|]. intros ->. rewrite He in He1. simplify_eq.
+    rewrite Hk in Hk1. symmetry in Hk1. by apply (pool_prefix_not_pod_key _ q Wq) in Hk1.
+  - destruct (alloc_in_subnet_spec _ _ _ _ _ _ _ _ _ Hal) as [(_ & x1 & _ & Hx1 & _ & -> & _)|[? _]]; [|done].
+    rewrite lookup_insert_ne; [done|]. intros ->. destruct Hi as [Hinv _]. rewrite (inv_disj _ Hinv _ Hx1) in He. done.
+Qed.
+
+Lemma bind_keeps w ns name uid node o fl x e :
+  WInv w → uid ≠ [] → i_alloc (w_ipam w) !! x = Some e →
+  keeps (w_ipam (bind_section true true w ns name uid node o fl).1) x (e_key e).
+Proof.
+  intros Hw Hu He. destruct (bind_section true true w ns name uid node o fl) as [w' r] eqn:E. cbn [fst].
+  apply bind_section_frame in E; [|done|done].
+  destruct E as [[-> _]|(l & w2 & _ & _ & _ & _ & _ & _ & _ & Hc & Hrest)]; [by exists e|].
+  assert (keeps (w_ipam w2) x (e_key e)) as Hk2.
+  { destruct (Hc x) as [E|(e' & He' & Hk' & _ & Hold)]; [exists e; by rewrite E|].
+    exists e'. split; [done|]. rewrite Hk'. by apply Hold. }
+  destruct Hrest as [[-> _]|(ips & w3 & out & Hb & _ & Hout)]; [done|].
+  apply api_bind_cases in Hb. destruct out.
+  - destruct Hb as (q0 & _ & _ & _ & ->). by destruct Hout as [-> _].
+  - destruct Hb as [-> _]. by destruct Hout as [-> _].
+  - subst w3. by destruct Hout as [-> _].
+Qed.
+
+Lemma configure_keeps_or s conf lf s' r l x e :
+  Inv2 s → step s (OConfigure conf lf []) = (s', r, l) → i_alloc s !! x = Some e →
+  keeps s' x (e_key e) ∨ ∃ ps, decode_pools conf = Some ps ∧ configured ps x = false.
+Proof.
+  intros Hi Hs He. destruct (decode_pools conf) as [ps|] eqn:Ed.
+  - destruct (configured ps x) eqn:Ec; [|right; by exists ps]. left.
+    destruct (configure_keeps _ _ _ _ _ _ Hi Hs x e He) as (e' & He' & Hso & _).
+    { intros ps0 E0. rewrite Ed in E0. by simplify_eq. }
+    exists e'. split; [done|]. by symmetry.
+  - left. destruct (configure_keeps _ _ _ _ _ _ Hi Hs x e He) as (e' & He' & Hso & _).
+    { intros ps0 E0. by rewrite Ed in E0. }
+    exists e'. split; [done|]. by symmetry.
+Qed.
+
+Lemma restart_keeps_or s conf s' r l x e :
+  Inv2 s → step s (ORestart conf) = (s', r, l) → i_alloc s !! x = Some e →
+  keeps s' x (e_key e) ∨ ∃ ps, decode_pools conf = Some ps ∧ configured ps x = false.
+Proof.
+  intros Hi Hs He. destruct (decode_pools conf) as [ps|] eqn:Ed.
+  - destruct (configured ps x) eqn:Ec; [|right; by exists ps]. left.
+    destruct (restart_keeps _ _ _ _ _ Hi Hs x e He) as (e' & He' & Hso & _).
+    { intros ps0 E0. rewrite Ed in E0. by simplify_eq. }
+    exists e'. split; [done|]. by symmetry.
+  - left. destruct (restart_keeps _ _ _ _ _ Hi Hs x e He) as (e' & He' & Hso & _).
+    { intros ps0 E0. by rewrite Ed in E0. }
+    exists e'. split; [done|]. by symmetry.
+Qed.
+
+(** ** the safety theorem *)
+Theorem release_only_when_licensed_l w o x e q :
+  WInv w → wf_op w o → i_alloc (w_ipam w) !! x = Some e → wf_pod q → e_key e = pod_key q →
+  lost (w_ipam (pstep w o).1) x (pod_key q) → licence w o x q (w_ipam (pstep w o).1).
+Proof.
+  intros Hw Hwf He Wq Hk. pose proof (wi_ipam w Hw) as Hi.
+  destruct o as [ev|key nodes orc fl|ns name uid node orc fl|n orc oun fl|ip orc ocl fl|k ip ocl fl|key fl|io|conf].
+  - intros Hl. exfalso. apply (lost_keeps _ _ _ Hl). exists e. split; [|done]. cbn [pstep fst]. by apply env_step_keeps.
+  - intros Hl. exfalso. apply (lost_keeps _ _ _ Hl). exists e. split; [|done]. cbn [pstep].
+    destruct (w_pods w !! key) as [p|]; [|done].
+    pose proof (filter_keeps w p nodes orc fl x e q Hi He Wq Hk) as H.
+    by destruct (filter_section w p nodes orc fl) as [w' [| |]].
+  - intros Hl. exfalso. apply (lost_keeps _ _ _ Hl). rewrite <- Hk. cbn [pstep].
+    pose proof (bind_keeps w ns name uid node orc fl x e Hw Hwf He) as H.
+    by destruct (bind_section true true w ns name uid node orc fl) as [w' [| |]].
+  - by eapply event_licence.
+  - by eapply resync_licence.
+  - by eapply api_release_licence.
+  - intros Hl. exfalso. apply (lost_keeps _ _ _ Hl). exists e. split; [|done]. cbn [pstep].
+    destruct (w_lister w !! key) as [p|]; [|done]. cbn [fst]. by apply sync_pod_ip_keeps.
+  - destruct io; cbn [wf_op] in Hwf; try done. destruct Hwf as [-> _]. cbn [pstep fst set_ipam w_ipam].
+    destruct (step (w_ipam w) (OConfigure conf listfail [])) as [[s' r] l] eqn:Es. cbn [fst].
+    intros Hl. destruct (configure_keeps_or _ _ _ _ _ _ x e Hi Es He) as [Hkp|(ps & Hd & Hc)].
+    + exfalso. apply (lost_keeps _ _ _ Hl). by rewrite <- Hk.
+    + by eapply lic_reload.
+  - cbn [pstep fst set_queue set_lister set_ipam w_ipam].
+    destruct (step (w_ipam w) (ORestart conf)) as [[s' r] l] eqn:Es. cbn [fst].
+    intros Hl. destruct (restart_keeps_or _ _ _ _ _ x e Hi Es He) as [Hkp|(ps & Hd & Hc)].
+    + exfalso. apply (lost_keeps _ _ _ Hl). by rewrite <- Hk.
+    + by eapply lic_restart.
 Qed.
